@@ -275,7 +275,13 @@ func c10Workflow(rt *rapid.T, repo string, allRepos []string, hasConfig bool, id
 			fmt.Fprintf(&b, "      - run: echo ${{ steps.a.outputs.out_%s }} ${{ steps.a.outputs.nosuch }}\n", strings.ToLower(R))
 			feats = append(feats, "local-action")
 		case 3: // reusable workflow call
-			fmt.Fprintf(&b, "  j%d:\n    uses: ./.github/workflows/callee.yml\n", j)
+			// a local call with a ref is invalid (reported); it must not disturb the valid calls of other files
+			ref := ""
+			if rapid.IntRange(0, 3).Draw(rt, "callwithref") == 0 {
+				ref = "@main"
+				feats = append(feats, "reusable-workflow-call-with-ref")
+			}
+			fmt.Fprintf(&b, "  j%d:\n    uses: ./.github/workflows/callee.yml%s\n", j, ref)
 			if rapid.Bool().Draw(rt, "givep") {
 				fmt.Fprintf(&b, "    with:\n      p_%s: x\n", strings.ToLower(R))
 			} else if rapid.Bool().Draw(rt, "giveother") {
